@@ -413,6 +413,43 @@ def r17_9(chk, tier):
                 else: chk.fail('R17.9', site, fn['file'], e.src.line if e.src is not None else fn['l'], '%s: the %s case builds the value without cursor.current().tag(): the semantic tag of the event is lost on this route' % (fn['n'], evn), None, fn['q'])
     chk.require(n >= 20, 'R17.9: only %d scalar event cases found in staj_cursor.hpp' % n)
 
+def r17_10(chk, facts):
+    """The generated decoders decide "a mandatory member is missing" from the first clear bit of the members-seen set."""
+    chk.rule('R17.10', 'first missing member: every value find_first_not_set() returns is either an index tested clear on that path '
+                       '(`!indices[i]` / `!indices.test(i)`) or the size of the set; a count of the bits set is the first clear index only '
+                       'when the members arrive in declaration order', floor=1)
+    fns = [f for f in facts.functions if f['n'] == 'find_first_not_set' and f.get('body') is not None and not f.get('dep')]
+    chk.require(fns, 'reflect: find_first_not_set not instantiated')
+    for fn in U.one_per_inst(fns)[:3]:
+        chk.analysed(fn)
+        g = C.CFG(fn['body'])
+        pid = fn['params'][0]['id']
+        bad = None; nret = 0
+        for nd in g.rpo:
+            if nd.kind != 'return' or nd.ast.get('val') is None: continue
+            nret += 1
+            v = A.strip(nd.ast['val'], casts=True)
+            ok = False
+            if v is not None and v.get('k') == 'CXXMemberCallExpr' and A.callee_name(v) == 'size' and (A.strip(v.get('obj'), casts=True) or {}).get('id') == pid: ok = True
+            if v is not None and A.const(v) is not None and 'ev' in v and v.get('k') != 'IntegerLiteral': ok = True      # N folded
+            if v is not None and v.get('k') == 'DeclRefExpr':
+                for a, lab, e in g.guards(nd):
+                    t = A.strip(a, casts=True); lab2 = lab
+                    while t is not None and t.get('k') == 'UnaryOperator' and t.get('op') == '!':
+                        t = A.strip(t.get('sub'), casts=True); lab2 = not lab2
+                    # bitset::operator[] / test(i) on the parameter with the returned variable as index, evaluated false
+                    for y in A.walk(t) if t is not None else ():
+                        if y.get('k') in ('CXXOperatorCallExpr', 'CXXMemberCallExpr') and (y.get('oop') == '[]' or A.callee_name(y) == 'test'):
+                            args_ = y.get('args') or []
+                            idx = A.strip(args_[-1], casts=True) if args_ else None
+                            if idx is not None and idx.get('k') == 'DeclRefExpr' and idx.get('id') == v.get('id') and lab2 is False: ok = True
+            if not ok: bad = nd
+        site = U.site(fn, 'returned index')
+        if bad is None and nret: chk.ok('R17.10', site, {'returns': nret})
+        else:
+            chk.fail('R17.10', site, fn['file'], bad.line if bad is not None else fn['l'], 'find_first_not_set returns `%s`, which is not an index found clear on that path: with '
+                     'members read out of declaration order the missing mandatory member is not detected (or a present one is reported)' % (A.text(bad.ast.get('val'))[:40] if bad is not None else '?'), None, fn['q'])
+
 def run(chk, tier, only_rule=None):
     chk.explanation = EXPLANATION
     chk.not_decided = NOT_DECIDED
@@ -427,6 +464,7 @@ def run(chk, tier, only_rule=None):
     r17_9(chk, tier)
     r17_3(chk, facts)
     r17_4(chk, facts)
+    r17_10(chk, facts)
     # the decoders read keys and strings as views of the current event
     from . import c03
     c03.r03_9(chk, tier)
